@@ -46,11 +46,12 @@ class _View:
         self.outs = {n["id"]: set(n["outs"]) for n in decl["nodes"]}
 
     def anc(self, n):
+        # ids the declared structure does not know (a rendering may invent them) have no ancestors
         out = []
-        n = self.par[n]
+        n = self.par.get(n, G.NONE)
         while n != G.NONE:
             out.append(n)
-            n = self.par[n]
+            n = self.par.get(n, G.NONE)
         return out
 
     def visible(self, n):
